@@ -1,21 +1,24 @@
-(* C03/Properties.v — property theorems for the PPPoE gate model and the RADIUS decision.
+(* C03/Properties.v — property theorems (wrappers only; proofs in the files named beside each group).
 
-   STATUS (be exact): the unbounded theorems over ALL event lists from the initial state are proved for the
-   repaired session logic ([vrep v = true], either FSM table): [C03_gate], [C03_reject_clean_partial],
-   [C03_renegotiation_reauth] (+ [_events] form), by the inductive invariant [GateInv.Inv] (proofs in
-   GateInv.v / GateMain.v; trace predicates used in the statements in GateDefs.v).
-   [C03_reject_clean_partial] is partial in exactly one respect: it covers attempts of a session that has not
-   been accepted since its PADR; a REJECTED RE-authentication of a session that had been accepted keeps the
-   lease in this model because the code keeps it ([C03_reject_clean_reauth_refuted], defect 3 of notes/C03.md).
-   For today's (defective) session logic see the [_refuted] witnesses. *)
-From OV Require Import Common.Base C03.Model C03.Proofs C03.GateDefs C03.GateInv C03.GateMain.
+   STATUS.  Model.step is the step function of /repo HEAD: repaired session logic ([vrep v = true]: onLCPDown resets,
+   empty request ids ignored, and — since c6c869c — a rejected or failed authentication tears the session down inside
+   the same answer).  For it, over ALL event lists from the initial state, either FSM table, any pool size:
+     PPPoE  C03_gate, C03_unaccepted_inert, C03_reject_clean (+ _step), C03_renegotiation_reauth (+ _events),
+            C03_lcp_down_marked and C03_alloc_needs_accept (the monitor's ghost markers tied to compared observables)
+     IPoE   C03_ipoe_gate, C03_ipoe_reject_clean, C03_ipoe_unapproved_holds_nothing
+   The subscriber slots are fixed at 3 per component (Model.nslots, IpoeModel: three slots): theorems quantify over
+   every slot index, the bound is that of the model, not of a theorem.  [vrep v = false] is the code before the
+   fixes; only [_refuted] witnesses speak about it. *)
+From OV Require Import Common.Base C03.Model C03.Proofs C03.GateDefs C03.GateInv C03.GateMain C03.GateReject C03.GateObs.
 
-(* Outside the Network/Open phases an IPCP, IPv6CP or IPv6 (RS/NS) frame changes nothing and produces no
-   output: internal/ppp/dispatcher.go inNetworkPhase. *)
+(* Outside the Network/Open phases an IPCP, IPv6CP or IPv6 (RS / NS / DHCPv6 SOLICIT / DHCPv6 REQUEST) frame changes
+   nothing and produces no output: internal/ppp/dispatcher.go inNetworkPhase.  (Every state, every variant; the
+   name keeps its historic suffix.) *)
 Theorem C03_ncp_gated_partial : forall v i m c,
   in_net (ph (ms m)) = false ->
   handle_frame v i (FrIpcp c) m = m /\ handle_frame v i (FrIp6cp c) m = m /\
-  handle_frame v i FrRs m = m /\ handle_frame v i FrNs m = m.
+  handle_frame v i FrRs m = m /\ handle_frame v i FrNs m = m /\
+  handle_frame v i FrDh6Sol m = m /\ handle_frame v i FrDh6Req m = m.
 Proof. exact ncp_frames_gated. Qed.
 Print Assumptions C03_ncp_gated_partial.
 
@@ -74,42 +77,77 @@ Example C03_gate_nonvacuous :
 Proof. vm_compute. repeat split; auto; discriminate. Qed.
 Print Assumptions C03_gate_nonvacuous.
 
-(* C03_reject_clean (partial, see STATUS).  [ever_ok i tr mon0 false = false]: since slot i's last PADR no
-   allowed AAA answer has arrived for a request it had outstanding — the answer was a reject, an error, is
-   still missing, belonged to another request, or nothing was ever asked.  Then, after ANY history, the slot's
-   session holds nothing (no pool lease, no IPv4 address, not in Network/Open) and both NCP automata are in
-   Initial/Starting/Closed. *)
-Theorem C03_reject_clean_partial : forall v pool evs i s, vrep v = true ->
+(* C03_unaccepted_inert (was C03_reject_clean_partial).  [ever_ok i tr mon0 false = false]: since slot i's last PADR
+   no allowed AAA answer has arrived for a request it had outstanding — the answer was a reject, an error, is still
+   missing, belonged to another request, or nothing was ever asked.  Then, after ANY history, the slot's session holds
+   nothing (no pool lease, no IPv4 address, not in Network/Open) and both NCP automata are in Initial/Starting/Closed. *)
+Theorem C03_unaccepted_inert : forall v pool evs i s, vrep v = true ->
   nth_error (sl (fst (run v (init pool) evs))) i = Some s ->
   ever_ok i (snd (run v (init pool) evs)) mon0 false = false ->
   inert s = true.
 Proof. exact GateMain.reject_clean. Qed.
-Print Assumptions C03_reject_clean_partial.
+Print Assumptions C03_unaccepted_inert.
 Definition ev_pending := [EvOpen 0; EvFrame 0 (FrLcp (FCreq QGood)); EvFrame 0 (FrLcp (FCack true)); EvFrame 0 FrChapResp].
-Example C03_reject_clean_nonvacuous :
+Example C03_unaccepted_inert_nonvacuous :
   let v := mkV true false in
-  (* reject, error, missing decision, answer for another request: hypothesis met, request was outstanding *)
-  Forall (fun evs => ever_ok 0 (snd (run v (init 2) evs)) mon0 false = false /\
-                     option_map live (nth_error (sl (fst (run v (init 2) evs))) 0) = Some true)
+  (* error answers, missing decision, answer for another request: hypothesis met *)
+  Forall (fun evs => ever_ok 0 (snd (run v (init 2) evs)) mon0 false = false)
          [ev_pending ++ [EvAAA 1 ARej]; ev_pending ++ [EvAAA 1 AErr]; ev_pending; ev_pending ++ [EvAAA 7 AAcc]] /\
   option_map pend (nth_error (sl (fst (run v (init 2) ev_pending))) 0) = Some (Some 1) /\
   (* an accept falsifies the hypothesis and the session then does hold an address *)
   ever_ok 0 (snd (run v (init 2) (ev_pending ++ [EvAAA 1 AAcc]))) mon0 false = true /\
   option_map inert (nth_error (sl (fst (run v (init 2) (ev_pending ++ [EvAAA 1 AAcc])))) 0) = Some false.
 Proof.
-  intros v. repeat split; repeat (apply Forall_cons; [split|]); try apply Forall_nil;
+  intros v. repeat split; repeat (apply Forall_cons; [|]); try apply Forall_nil;
     timeout 20 (vm_compute; reflexivity).
 Qed.
+Print Assumptions C03_unaccepted_inert_nonvacuous.
+
+(* C03_reject_clean.  After ANY history, when a reject or error answer arrives for the request a live session has
+   outstanding (the only way an answer has any effect: C03_aaa_correlation, C03_aaa_unmatched_ignored), then in that
+   very step the pool gets back the lease the session held ([lease s]: 1 iff it holds a pool lease that is its current
+   address) and the session is out of the indexes; and whatever happens afterwards — client frames, timers, further
+   answers, dataplane completions — it stays out until the subscriber's next PADR.  With C03_unaccepted_inert
+   (never-accepted attempts, incl. missing decisions, hold nothing) and C03_gate (nothing is served meanwhile) this is
+   the "reject / error / missing decision leaves nothing" clause for the step function HEAD runs.
+   Not claimed: a session whose address was replaced by a later Framed-IP accept while it still held a pool lease does
+   not return that lease in terminate ([lease] = 0 there) — allocator conservation, C02. *)
+Theorem C03_reject_clean : forall v pool evs1 k a evs2 i, vrep v = true -> allowed_of a = false ->
+  find_idx (pend_matches v k) (sl (fst (run v (init pool) evs1))) 0 = Some i ->
+  Forall (fun e => e <> EvOpen i) evs2 ->
+  let st1 := fst (run v (init pool) evs1) in
+  let st2 := fst (step v st1 (EvAAA k a)) in
+  exists s s3,
+    nth_error (sl st1) i = Some s /\ live s = true /\ pend s = Some k /\
+    free st2 = free st1 + lease s /\
+    nth_error (sl (fst (run v st2 evs2))) i = Some s3 /\ live s3 = false.
+Proof. exact GateReject.reject_clean_run. Qed.
+Print Assumptions C03_reject_clean.
+(* the single step, from EVERY component state (reachable or not) *)
+Theorem C03_reject_clean_step : forall v st k a i, vrep v = true -> allowed_of a = false ->
+  find_idx (pend_matches v k) (sl st) 0 = Some i ->
+  exists s s',
+    nth_error (sl st) i = Some s /\ live s = true /\ pend s = Some k /\
+    nth_error (sl (fst (step v st (EvAAA k a)))) i = Some s' /\
+    live s' = false /\ ph s' = PTerminate /\
+    free (fst (step v st (EvAAA k a))) = free st + lease s.
+Proof. exact GateReject.reject_step_clean. Qed.
+Print Assumptions C03_reject_clean_step.
+Definition ev_reauth := ev_pending ++ [EvAAA 1 AAcc; EvFrame 0 (FrLcp (FCreq QGood)); EvFrame 0 (FrLcp (FCack true));
+                                       EvFrame 0 FrChapResp].
+Example C03_reject_clean_nonvacuous :
+  let v := mkV true false in
+  let st := fst (run v (init 2) ev_reauth) in
+  (* accepted, renegotiated, second request outstanding, lease held: the hypotheses are met ... *)
+  find_idx (pend_matches v 2) (sl st) 0 = Some 0 /\ option_map lease (nth_error (sl st) 0) = Some 1 /\ free st = 1 /\
+  (* ... the reject returns the lease and removes the session, an accept does neither *)
+  free (fst (step v st (EvAAA 2 ARej))) = 2 /\ option_map live (nth_error (sl (fst (step v st (EvAAA 2 ARej)))) 0) = Some false /\
+  free (fst (step v st (EvAAA 2 AAcc))) = 1 /\ option_map live (nth_error (sl (fst (step v st (EvAAA 2 AAcc)))) 0) = Some true /\
+  (* the code before c6c869c / 8b06a36 kept lease and session on this path *)
+  free (fst (run (mkV false false) (init 2) (ev_reauth ++ [EvAAA 2 ARej]))) = 1 /\
+  option_map live (nth_error (sl (fst (run (mkV false false) (init 2) (ev_reauth ++ [EvAAA 2 ARej])))) 0) = Some true.
+Proof. intros v st. repeat split; timeout 20 (vm_compute; reflexivity). Qed.
 Print Assumptions C03_reject_clean_nonvacuous.
-(* what is missing for the full statement: accepted, renegotiated, re-authentication REJECTED (last event) — the
-   session keeps its lease (both variants; the code has no teardown on this path) *)
-Theorem C03_reject_clean_reauth_refuted : forall rep rfc,
-  let evs := ev_pending ++ [EvAAA 1 AAcc; EvFrame 0 (FrLcp (FCreq QGood)); EvFrame 0 (FrLcp (FCack true));
-                            EvFrame 0 FrChapResp; EvAAA 2 ARej] in
-  option_map holds_nothing (nth_error (sl (fst (run (mkV rep rfc) (init 2) evs))) 0) = Some false /\
-  free (fst (run (mkV rep rfc) (init 2) evs)) = 1.
-Proof. intros [] []; vm_compute; auto. Qed.
-Print Assumptions C03_reject_clean_reauth_refuted.
 
 (* C03_renegotiation_reauth.  Split any history at a point where slot i's monitor holds no accept (mn1; in
    particular right after LCP left Opened, [C03_lcp_down_clears_accept]).  If in the continuation no allowed AAA
@@ -157,6 +195,33 @@ Proof.
 Qed.
 Print Assumptions C03_renegotiation_reauth_nonvacuous.
 
+(* The monitor's ghost markers, tied to what the harness compares at every step (GateObs.v; every state, every
+   variant).  (1) Whenever a step moves slot i's LCP out of Opened — other than by the slot's own PADR / PADT /
+   dead-peer event, which reset the monitor as inputs — the step's outputs contain GLcpDown for the slot: the monitor
+   cannot miss an authentication reset.  The per-slot LCP state is part of the status line the correspondence check
+   compares with the real FSM after every event, and the Go-side monitor resets on exactly that observable. *)
+Theorem C03_lcp_down_marked : forall v st e i,
+  e <> EvOpen i -> e <> EvPadt i -> e <> EvDead i ->
+  lcp_open_at st i = true -> lcp_open_at (fst (step v st e)) i = false ->
+  In (i, GLcpDown) (snd (step v st e)).
+Proof. exact GateObs.lcp_down_marked. Qed.
+Print Assumptions C03_lcp_down_marked.
+(* (2) Allocation, without the ghost GAlloc: the number of free pool addresses (compared at every step) goes down only
+   in an allowed AAA answer that matches a live session's outstanding request, and then by exactly one. *)
+Theorem C03_alloc_needs_accept : forall v st e,
+  free (fst (step v st e)) < free st ->
+  exists k a i, e = EvAAA k a /\ allowed_of a = true /\ find_idx (pend_matches v k) (sl st) 0 = Some i /\
+                free st = S (free (fst (step v st e))).
+Proof. exact GateObs.alloc_needs_accept. Qed.
+Print Assumptions C03_alloc_needs_accept.
+Example C03_observables_nonvacuous :
+  let v := mkV true false in
+  let st := fst (run v (init 2) (ev_pending ++ [EvAAA 1 AAcc])) in
+  lcp_open_at st 0 = true /\ lcp_open_at (fst (step v st (EvFrame 0 (FrLcp (FCreq QGood))))) 0 = false /\
+  free (fst (run v (init 2) ev_pending)) = 2 /\ free st = 1.
+Proof. intros v st. repeat split; timeout 20 (vm_compute; reflexivity). Qed.
+Print Assumptions C03_observables_nonvacuous.
+
 (* Bounded: from each of 11 situations (fresh, LCP open, request pending, network, open, renegotiated,
    renegotiated with a request pending, re-authenticating, rejected, terminated, nothing) every sequence of TWO
    events over the whole 87-event alphabet is accepted by the monitor, for both FSM tables. *)
@@ -182,16 +247,6 @@ Example C03_gate_witnesses_repaired : forall rfc,
 Proof. intros []; repeat constructor; vm_compute; discriminate. Qed.
 Print Assumptions C03_gate_witnesses_repaired.
 
-(* Not repaired, both variants: a session that was accepted, renegotiated and then REJECTED keeps its pool
-   address (free stays 1 of 2) and stays in the component's indexes until PADT / dead-peer. *)
-Definition w_reauth_reject := ev_lcp_up ++ [EvFrame 0 FrChapResp; EvAAA 1 AAcc; EvFrame 0 (FrLcp (FCreq QGood));
-  EvFrame 0 (FrLcp (FCack true)); EvFrame 0 FrChapResp; EvAAA 2 ARej].
-Example C03_reject_after_reauth_keeps_lease : forall rep rfc,
-  let st := fst (run (mkV rep rfc) (init 2) w_reauth_reject) in
-  free st = 1 /\ option_map live (nth_error (sl st) 0) = Some true /\ option_map alloc_pool (nth_error (sl st) 0) = Some true.
-Proof. intros [] []; vm_compute; auto. Qed.
-Print Assumptions C03_reject_after_reauth_keeps_lease.
-
 (* non-vacuity: the nominal dual-stack bring-up reaches Open with service outputs and is accepted *)
 Definition w_nominal := ev_lcp_up ++ [EvFrame 0 FrChapResp; EvAAA 1 AAcc;
   EvFrame 0 (FrIpcp (FCreq QGood)); EvFrame 0 (FrIpcp (FCack true)); EvFrame 0 (FrIp6cp (FCreq QGood));
@@ -206,10 +261,8 @@ Proof. vm_compute. repeat split; auto; discriminate. Qed.
 Print Assumptions C03_nonvacuous.
 
 (* ====================================================================== *)
-(* IPoE gate (IpoeModel.v / IpoeProofs.v) and the reject teardown (RejectTeardown.v) — wrappers only.
-   STATUS: the per-handler gates below hold for every machine state; the statement over all event sequences
-   (gate monitor accepted, every unapproved attempt holds nothing) is the bounded sweep C03_ipoe_bounded_sweep. *)
-From OV Require Import C03.IpoeModel C03.IpoeProofs C03.RejectTeardown.
+(* IPoE: per-handler gates, every machine state (IpoeModel.v / IpoeProofs.v) *)
+From OV Require Import C03.IpoeModel C03.IpoeProofs.
 
 (* a DISCOVER / REQUEST / SOLICIT / REQUEST6(RENEW) handled for a session that is not approved yields no OFFER, ACK,
    ADVERTISE, REPLY, no dataplane call and no Active lifecycle *)
@@ -280,53 +333,11 @@ Theorem C03_ipoe_refuted :
 Proof. exact ipoe_refuted. Qed.
 Print Assumptions C03_ipoe_refuted.
 
-(* PPPoE reject teardown: the repaired step is two steps of Model.step (the answer, then the dead-peer teardown of
-   the session it rejected), so everything proved for all event sequences of Model.run covers it *)
-Theorem C03_reject_teardown_is_run : forall v evs st, run_rt v st evs = fst (run v st (expand v st evs)).
-Proof. exact run_rt_expand. Qed.
-Print Assumptions C03_reject_teardown_is_run.
-(* with the teardown a rejected re-authentication gives the address back and removes the session; without it
-   (today) it does not (C03_reject_after_reauth_keeps_lease above) *)
-Example C03_reject_teardown_releases : forall rfc,
-  let st := run_rt (mkV true rfc) (init 2) w_reauth_reject in
-  free st = 2 /\ option_map live (nth_error (sl st) 0) = Some false.
-Proof. intros []; vm_compute; auto. Qed.
-Print Assumptions C03_reject_teardown_releases.
-
-(* C03_reject_clean for the repaired reject path (step_rt), EVERY component state (reachable or not), any variant:
-   when a reject / error answer matches a session (the only way it has any effect, C03_aaa_unmatched_ignored),
-   then after the step that session is out of the component's indexes (live = false: it can receive no frame and
-   no AAA answer any more) and the pool has its lease back — exactly: [free] grows by one iff the session held a
-   pool lease that was its current address.  (A session whose address was overridden by a later Framed-IP accept
-   while it still held a pool lease does not give the lease back: [alloc_pool && cur4 = APool] is false then —
-   a C02-type leak of terminate, outside this property.)  With [C03_reject_clean_partial] (never-accepted
-   attempts hold nothing, whatever happens) this covers reject, error and missing decision. *)
-From OV Require C03.GateReject.
-Theorem C03_reject_clean : forall v st k a i,
-  reject_target v st (EvAAA k a) = Some i ->
-  exists s s',
-    nth_error (sl st) i = Some s /\ live s = true /\ pend_matches v k s = true /\ allowed_of a = false /\
-    nth_error (sl (fst (step_rt v st (EvAAA k a)))) i = Some s' /\
-    live s' = false /\
-    free (fst (step_rt v st (EvAAA k a))) =
-      free st + (if alloc_pool s && addr_eqb (cur4 s) APool then 1 else 0).
-Proof. exact GateReject.reject_teardown_clean. Qed.
-Print Assumptions C03_reject_clean.
-Example C03_reject_clean_teardown_nonvacuous :
-  let v := mkV true false in
-  let st := fst (run v (init 2) (ev_pending ++ [EvAAA 1 AAcc; EvFrame 0 (FrLcp (FCreq QGood));
-                                                EvFrame 0 (FrLcp (FCack true)); EvFrame 0 FrChapResp])) in
-  reject_target v st (EvAAA 2 ARej) = Some 0 /\ reject_target v st (EvAAA 2 AErr) = Some 0 /\
-  option_map (fun s => alloc_pool s && addr_eqb (cur4 s) APool) (nth_error (sl st) 0) = Some true /\
-  free st = 1 /\ free (fst (step_rt v st (EvAAA 2 ARej))) = 2.
-Proof. intros v st. repeat split; timeout 20 (vm_compute; reflexivity). Qed.
-Print Assumptions C03_reject_clean_teardown_nonvacuous.
-
 (* ====================================================================== *)
 (* IPoE gate over ALL event sequences (IpoeGateBase.v / IpoeGateHandlers.v / IpoeGateMain.v / IpoeGateEx.v) —
-   wrappers only.  This supersedes the STATUS note above: for the repaired variant (rep = true, = /repo HEAD with
-   "ipoe: ignore AAA responses when the session has no request in flight") the two statements of the property are
-   proved for every pool size and EVERY event list from the initial state; C03_ipoe_bounded_sweep is redundant. *)
+   wrappers only.  For the repaired variant (rep = true, = /repo HEAD since 671f51c "ipoe: ignore AAA responses when
+   the session has no request in flight") the two statements of the property hold for every pool size and EVERY event
+   list from the initial state; C03_ipoe_bounded_sweep above is redundant (kept as an end-to-end vm_compute). *)
 From OV Require C03.IpoeGateMain C03.IpoeGateEx.
 
 (* gate: the monitor of IpoeModel.v never flags — every service output (OFFER, ACK, ADVERTISE, REPLY, dataplane
